@@ -95,8 +95,8 @@ use crypto_bigint::subtle::Choice;
 
 struct Op { name: &'static str, secret_a: bool, secret_b: bool, more: usize, f: fn(&In) -> u64 }
 macro_rules! op {
-    ($n:literal, $sa:expr, $sb:expr, |$i:ident| $body:expr) => { Op { name: $n, secret_a: $sa, secret_b: $sb, more: 0, f: { fn g($i: &In) -> u64 { $body } g } } };
-    ($n:literal, $sa:expr, $sb:expr, more $m:expr, |$i:ident| $body:expr) => { Op { name: $n, secret_a: $sa, secret_b: $sb, more: $m, f: { fn g($i: &In) -> u64 { $body } g } } };
+    ($n:expr, $sa:expr, $sb:expr, |$i:ident| $body:expr) => { Op { name: $n, secret_a: $sa, secret_b: $sb, more: 0, f: { fn g($i: &In) -> u64 { $body } g } } };
+    ($n:expr, $sa:expr, $sb:expr, more $m:expr, |$i:ident| $body:expr) => { Op { name: $n, secret_a: $sa, secret_b: $sb, more: $m, f: { fn g($i: &In) -> u64 { $body } g } } };
 }
 fn foldw<const N: usize>(x: &Uint<N>) -> u64 { x.as_words().iter().fold(0u64, |h, w| h.rotate_left(9) ^ *w) }
 
@@ -106,8 +106,56 @@ fn nzbm(i: &In) -> NonZero<BoxedUint> { NonZero::new(i.bm.clone()).unwrap() }
 fn oddbm(i: &In) -> Odd<BoxedUint> { Odd::new(i.bm.clone()).unwrap() }
 fn sh(i: &In) -> u32 { i.s % 256 }
 
+
+/// an N-limb operand cut from the two 1024-bit secrets (words taken cyclically), for the per-width operation sets
+fn un<const N: usize>(x: &U1024, y: &U1024, rot: usize) -> Uint<N> {
+    let (xw, yw) = (x.as_words(), y.as_words());
+    let mut w = [0u64; N];
+    for k in 0..N { let j = (k + rot) % 32; w[k] = if j < 16 { xw[j] } else { yw[j - 16] }; }
+    Uint::from_words(w)
+}
+/// a public odd modulus of N limbs just below 2^BITS
+fn pubmod<const N: usize>() -> Odd<Uint<N>> { Odd::new(Uint::<N>::MAX.wrapping_sub(&Uint::<N>::from_u64(188))).unwrap() }
+
+/// the core operation set at one more width (the registry above is U256; the optimiser specialises every width separately)
+macro_rules! width_ops {
+    ($v:ident, $N:literal, $tag:literal) => {
+        $v.push(op!(concat!("uint", $tag, ".add_sub_neg"), true, true, |i| { let (a, b) = (un::<$N>(&i.wa, &i.wb, 0), un::<$N>(&i.wb, &i.wa, 5));
+            let (r, c) = a.adc(&b, Limb::ONE); let (d, bw) = a.sbb(&b, Limb::ZERO);
+            foldw(&a.wrapping_add(&b)) ^ foldw(&r) ^ c.0 ^ foldw(&d) ^ bw.0 ^ foldw(&CheckedAdd::checked_add(&a, &b).unwrap_or(Uint::ZERO)) ^ foldw(&CheckedSub::checked_sub(&a, &b).unwrap_or(Uint::ZERO))
+                ^ foldw(&a.saturating_add(&b)) ^ foldw(&a.saturating_sub(&b)) ^ foldw(&a.wrapping_neg()) }));
+        $v.push(op!(concat!("uint", $tag, ".mul"), true, true, |i| { let (a, b) = (un::<$N>(&i.wa, &i.wb, 0), un::<$N>(&i.wb, &i.wa, 5));
+            let (l, h) = a.split_mul(&b); let (sl, sh_) = a.square_wide();
+            foldw(&l) ^ foldw(&h) ^ foldw(&sl) ^ foldw(&sh_) ^ foldw(&a.wrapping_mul(&b)) ^ foldw(&CheckedMul::checked_mul(&a, &b).unwrap_or(Uint::ZERO)) ^ foldw(&a.saturating_mul(&b)) }));
+        $v.push(op!(concat!("uint", $tag, ".cmp"), true, true, |i| { let (a, b) = (un::<$N>(&i.wa, &i.wb, 0), un::<$N>(&i.wb, &i.wa, 5));
+            foldc(a.ct_eq(&b)) ^ foldc(a.ct_lt(&b)) << 1 ^ foldc(a.ct_gt(&b)) << 2 ^ ((a.cmp(&b) as i8 as u64) << 3) ^ foldc(!Zero::is_zero(&a)) << 12 ^ foldc(a.is_odd().into()) << 13 ^ ((a == b) as u64) << 14 }));
+        $v.push(op!(concat!("uint", $tag, ".bits"), true, true, |i| { let (a, b) = (un::<$N>(&i.wa, &i.wb, 0), un::<$N>(&i.wb, &i.wa, 5));
+            let idx = (b.as_words()[0] % (64 * $N)) as u32;
+            (a.bits() ^ a.leading_zeros() << 8 ^ a.trailing_zeros() << 16 ^ a.trailing_ones() << 24) as u64 ^ foldc(a.bit(idx).into()) << 40 }));
+        $v.push(op!(concat!("uint", $tag, ".shift(secret amount)"), true, true, |i| { let (a, b) = (un::<$N>(&i.wa, &i.wb, 0), un::<$N>(&i.wb, &i.wa, 5));
+            let s = (b.as_words()[0] % (64 * $N)) as u32; let s2 = (b.as_words()[0] % (160 * $N)) as u32;
+            foldw(&a.shl(s)) ^ foldw(&a.shr(s)) ^ foldw(&a.wrapping_shl(s2)) ^ foldw(&a.wrapping_shr(s2)) ^ foldw(&a.overflowing_shl(s2).unwrap_or(Uint::ZERO)) ^ foldw(&a.overflowing_shr(s2).unwrap_or(Uint::ZERO)) }));
+        $v.push(op!(concat!("uint", $tag, ".select_swap"), true, true, |i| { let (mut a, mut b) = (un::<$N>(&i.wa, &i.wb, 0), un::<$N>(&i.wb, &i.wa, 5));
+            let c = a.ct_lt(&b); let r = Uint::<$N>::conditional_select(&a, &b, c); Uint::<$N>::conditional_swap(&mut a, &mut b, c); foldw(&r) ^ foldw(&a) ^ foldw(&b).rotate_left(3) }));
+        $v.push(op!(concat!("uint", $tag, ".mod_arith(public modulus)"), true, true, |i| { let (a, b) = (un::<$N>(&i.wa, &i.wb, 0), un::<$N>(&i.wb, &i.wa, 5)); let p = pubmod::<$N>();
+            foldw(&a.add_mod(&b, &p)) ^ foldw(&a.sub_mod(&b, &p)) ^ foldw(&a.double_mod(&p)) ^ foldw(&a.mul_mod(&b, p.as_nz_ref())) }));
+        $v.push(op!(concat!("uint", $tag, ".rem(public modulus)"), true, true, |i| { let a = un::<$N>(&i.wa, &i.wb, 0); let p = pubmod::<$N>(); foldw(&a.rem(p.as_nz_ref())) }));
+        $v.push(op!(concat!("monty", $tag, ".mul_square(public modulus)"), true, true, |i| { let (a, b) = (un::<$N>(&i.wa, &i.wb, 0), un::<$N>(&i.wb, &i.wa, 5)); let params = MontyParams::new_vartime(pubmod::<$N>());
+            let (x, y) = (MontyForm::new(&a, params), MontyForm::new(&b, params));
+            foldw((x * y).as_montgomery()) ^ foldw(x.square().as_montgomery()) }));
+        $v.push(op!(concat!("monty", $tag, ".retrieve(public modulus)"), true, true, |i| { let a = un::<$N>(&i.wa, &i.wb, 0); let params = MontyParams::new_vartime(pubmod::<$N>());
+            foldw(&MontyForm::new(&a, params).retrieve()) }));
+        $v.push(op!(concat!("monty", $tag, ".add_sub_double_halve(public modulus)"), true, true, |i| { let (a, b) = (un::<$N>(&i.wa, &i.wb, 0), un::<$N>(&i.wb, &i.wa, 5)); let params = MontyParams::new_vartime(pubmod::<$N>());
+            let (x, y) = (MontyForm::from_montgomery(a.shr_vartime(1), params), MontyForm::from_montgomery(b.shr_vartime(1), params));
+            foldw((x + y).as_montgomery()) ^ foldw((x - y).as_montgomery()) ^ foldw(x.double().as_montgomery()) ^ foldw(x.div_by_2().as_montgomery()) }));
+        $v.push(op!(concat!("monty", $tag, ".pow(secret exponent, public modulus)"), true, true, |i| { let (a, b) = (un::<$N>(&i.wa, &i.wb, 0), un::<$N>(&i.wb, &i.wa, 5)); let params = MontyParams::new_vartime(pubmod::<$N>());
+            let x = MontyForm::from_montgomery(a.shr_vartime(1), params);
+            foldw(x.pow_bounded_exp(&b, 12).as_montgomery()) }));
+    };
+}
+
 fn registry() -> Vec<Op> {
-    vec![
+    let mut v = vec![
         // --- arithmetic
         op!("uint.wrapping_add", true, true, |i| fold(&i.a.wrapping_add(&i.b))),
         op!("uint.adc", true, true, |i| { let (r, c) = i.a.adc(&i.b, Limb::ONE); fold(&r) ^ c.0 }),
@@ -331,7 +379,9 @@ fn registry() -> Vec<Op> {
         op!("boxedmonty64.pow(secret exponent)", true, true, more 6000, |i| { let p = BoxedMontyParams::new_vartime(Odd::new(i.m1.clone()).unwrap()); let x = BoxedMontyForm::new(BoxedUint::from_words([i.a.as_words()[0]]), p); foldb(x.pow(&BoxedUint::from_words([i.b.as_words()[0]])).as_montgomery()) }),
         op!("monty64.pow(secret exponent)", true, true, more 2000, |i| { let p = MontyParams::new_vartime(Odd::new(U64::from_u64(i.m1.as_words()[0])).unwrap()); fold(&MontyForm::new(&U64::from_u64(i.a.as_words()[0]), p).pow(&U64::from_u64(i.b.as_words()[0])).as_montgomery().resize()) }),
         op!("boxedmonty.invert", true, true, |i| { let p = BoxedMontyParams::new_vartime(oddbm(i)); let x = BoxedMontyForm::new(i.ba.clone(), p.clone()); { let _ = &p; foldc(x.invert().is_some()) } }),
-    ]
+    ];
+    width_ops!(v, 1, "64"); width_ops!(v, 2, "128"); width_ops!(v, 3, "192"); width_ops!(v, 6, "384"); width_ops!(v, 8, "512"); width_ops!(v, 16, "1024w");
+    v
 }
 
 // ---- driver ------------------------------------------------------------------------------------------
